@@ -136,7 +136,7 @@ CHECKS["C05"] = {
             "then one block deletes a generated live target set (shapes as in C02) whose proof is encoded as: canonical / targets+hashes permuted in parallel / "
             "1-3 junk hashes appended / assembled by AddProof from two (possibly overlapping) honest proofs / cut by GetProofSubset from a larger honest proof / "
             "cut from the cached proof maintained by Proof.Update; followed by 0..k additions and optionally one honest follow-up block. Precondition checked, "
-            "not assumed: Verify accepts and the targets are distinct positions of live leaves with their hashes (failures counted per encoding). Oracle: "
+            "not assumed: Verify accepts and the targets are distinct positions of live leaves with their hashes (failures counted per encoding). In half of the cases the very same slices (no copies) are handed to all four implementations, in a drawn order. Oracle: "
             "Stump.Update, Pollard.Modify, MapPollard Verify(remember)+Modify all succeed and end with the model's roots and leaf count. Non-trivial: "
             "encoding other than canonical and >=2 targets.",
     "assumptions": COMMON_ASSUME,
